@@ -150,7 +150,7 @@ def _ctau(opa, out):
     if [a.arg for a in fn.args.args] != ["self", "X", "tau"]:
         raise TransError("_Ctau signature")
     b = body_nodoc(fn)
-    want = ["sample_name = self.preprocessor.sample_name", "X0 = X.copy(deep=True)", None,
+    want = ["sample_name = self.preprocessor.sample_name", "X0 = X.copy(deep=True)", "n_valid = X[sample_name].size - tau", None,
             "X0 = X0.rename({'mode': 'feature1'})", "Xtau = Xtau.rename({'mode': 'feature2'})", None, None]
     if len(b) != len(want):
         raise TransError("_Ctau has %d statements (expected %d)" % (len(b), len(want)))
@@ -158,12 +158,14 @@ def _ctau(opa, out):
         if w is not None:
             _expect("_Ctau statement", _src(s), w)
     # Xtau = X.shift({sample_name: -tau}).dropna(sample_name)
-    sh = b[2]
+    sh = b[3]
     if not (isinstance(sh, ast.Assign) and try_dotted(sh.targets[0]) == "Xtau"):
         raise TransError("_Ctau: shifted copy")
     c = sh.value
-    if not (isinstance(c, ast.Call) and isinstance(c.func, ast.Attribute) and c.func.attr == "dropna" and _src(c.args[0]) == "sample_name" and len(c.args) == 1 and not c.keywords):
-        raise TransError("_Ctau: rows made undefined by the shift are not dropped along the sample dimension")
+    # the last tau rows (made undefined by the shift) are cut off by position: .isel({sample_name: slice(None, n_valid)})
+    if not (isinstance(c, ast.Call) and isinstance(c.func, ast.Attribute) and c.func.attr == "isel" and len(c.args) == 1 and not c.keywords
+            and _src(c.args[0]) == "{sample_name: slice(None, n_valid)}"):
+        raise TransError("_Ctau: rows made undefined by the shift are not cut off along the sample dimension")
     c2 = c.func.value
     if not (isinstance(c2, ast.Call) and isinstance(c2.func, ast.Attribute) and c2.func.attr == "shift" and try_dotted(c2.func.value) == "X"
             and len(c2.args) == 1 and isinstance(c2.args[0], ast.Dict) and len(c2.args[0].keys) == 1 and _src(c2.args[0].keys[0]) == "sample_name"):
@@ -172,7 +174,7 @@ def _ctau(opa, out):
     if amount != "-tau":
         raise TransError("_Ctau: shift amount %r (expected -tau: row t of the shifted copy holds X[t + tau])" % amount)
     # n_samples = Xtau[sample_name].size   (after shift and dropna: n - tau rows)
-    ns = b[5]
+    ns = b[6]
     if not (isinstance(ns, ast.Assign) and try_dotted(ns.targets[0]) == "n_samples"):
         raise TransError("_Ctau: n_samples")
     nsrc = _src(ns.value)
@@ -182,7 +184,7 @@ def _ctau(opa, out):
         nz, after = "(Z.of_nat n)", False
     else:
         raise TransError("_Ctau: n_samples = %s" % nsrc)
-    r = b[6]
+    r = b[7]
     if not (isinstance(r, ast.Return) and isinstance(r.value, ast.BinOp) and isinstance(r.value.op, ast.Div)):
         raise TransError("_Ctau: return is not a quotient")
     _expect("_Ctau product", _src(r.value.left), "xr.dot(X0, Xtau, dims=[sample_name])")
@@ -372,18 +374,15 @@ def facts(repo):
 
     decomposer(assign(nxt(), "decomposer"), "decomposer of C0", "C0.shape[0]")
     _expect("decomposition of C0", _src(nxt()), "decomposer.fit(C0, dims=('feature1', 'feature2'))")
-    _expect("C0_sqrt", _src(assign(nxt(), "C0_sqrt")), "decomposer.U_ * np.sqrt(decomposer.s_)")
-    out.append("(* C0_sqrt = decomposer.U_ * np.sqrt(decomposer.s_): dims (feature1, mode) *)")
-    out.append("Definition opa_c0sqrt_src {F} (K : Ops F) (q : nat) (U0 : list (list F)) (s0 : list F) : list (list F) := colscale K q q U0 (vmap K q (fsqrt K) s0).")
-    env["C0_sqrt"] = T("A", ("feature1", "mode"), ("q", "q"), ("A",))
-    v = assign(nxt(), "C0_sqrt_inv")
-    if not (isinstance(v, ast.Call) and try_dotted(v.func) == "self._compute_matrix_inverse" and [_src(a) for a in v.args] == ["C0_sqrt"]):
-        raise TransError("C0_sqrt_inv")
-    idims = ast.literal_eval(_kwargs(v).get("dims", "None"))
-    if tuple(idims or ()) != env["C0_sqrt"].dims:
-        raise TransError("inverse taken with core dims %r of a tensor with dims %r" % (idims, env["C0_sqrt"].dims))
-    env["C0_sqrt_inv"] = T("Ci", tuple(idims)[::-1], ("q", "q"), ("Ci",))
-    out.append("Definition opa_ci_dims : list string := [%s]%%string.  (* np.linalg.inv, output dims reversed *)\n"
+    # symmetric inverse square root: C0^(-1/2) = U0 diag(1/sqrt(s0)) U0^T, dims renamed to (mode, feature1)
+    _expect("U0", _src(assign(nxt(), "U0")), "decomposer.U_")
+    _expect("C0_sqrt_inv", _src(assign(nxt(), "C0_sqrt_inv")),
+            "xr.dot(U0 / np.sqrt(decomposer.s_), U0.rename({'feature1': 'temp'}), dims='mode').rename({'feature1': 'mode', 'temp': 'feature1'})")
+    out.append("(* C0_sqrt_inv = sum over mode of (U0 / sqrt(s0))[f, mode] * U0[g, mode], dims (mode, feature1): the symmetric inverse square root *)")
+    out.append("Definition opa_ci_src {F} (K : Ops F) (q : nat) (U0 : list (list F)) (s0 : list F) : list (list F) :=")
+    out.append("  tab q q (fun a b => sum K q (fun m => fmul K (fdiv K (get K U0 a m) (fsqrt K (vget K s0 m))) (get K U0 b m))).")
+    env["C0_sqrt_inv"] = T("Ci", ("mode", "feature1"), ("q", "q"), ("Ci",))
+    out.append("Definition opa_ci_dims : list string := [%s]%%string.\n"
                % "; ".join('"%s"' % d for d in env["C0_sqrt_inv"].dims))
     # target: every re-assignment up to the eigensolver's fit
     while True:
@@ -412,6 +411,8 @@ def facts(repo):
         kw = _kwargs(s.value)
         _expect("eigh input dims", kw.get("input_core_dims"), "[%r]" % (tg.dims,))
         _expect("eigh output dims", kw.get("output_core_dims"), "[('mode',), (%r, 'mode')]" % tg.dims[0])
+        _expect("eigh is deferred as one task on dask input", (kw.get("dask"), kw.get("output_dtypes"), kw.get("dask_gufunc_kwargs")),
+                ("'parallelized'", "[target.dtype, target.dtype]", "{'allow_rechunk': True, 'output_sizes': {'mode': target.sizes['feature1']}}"))
         _expect("eigh: selection of the n_modes largest", _src(assign(nxt(), "keep")), "slice(None, -self._params['n_modes'] - 1, -1)")
         _expect("eigh: mode labels", _src(assign(nxt(), "mode_coords")), "range(1, self._params['n_modes'] + 1)")
         _expect("U", _src(assign(nxt(), "U")), "U.isel(mode=keep).assign_coords(mode=mode_coords)")
